@@ -871,6 +871,22 @@ class Inliner:
                 todo.extend(ast.iter_child_nodes(x))
             return False
 
+        def fold_continues(body):
+            # `if c: X; continue` followed by REST  ->  `if c: X  else: REST` (top level of the loop body only)
+            for i, st in enumerate(body):
+                if isinstance(st, ast.If) and not st.orelse and st.body and isinstance(st.body[-1], ast.Continue):
+                    rest = fold_continues(body[i + 1:])
+                    new_if = ast.If(test=st.test, body=st.body[:-1] or [ast.Pass()], orelse=rest)
+                    ast.copy_location(new_if, st)
+                    ast.fix_missing_locations(new_if)
+                    return body[:i] + [new_if]
+            return body
+
+        if isinstance(s, ast.For) and not s.orelse and isinstance(s.iter, ast.Call) and self._target(s.iter, cls) is not None and self._target(s.iter, cls)[1].is_gen and own_loop_jumps(s.body):
+            folded = fold_continues([copy.deepcopy(b) for b in s.body])
+            if not own_loop_jumps(folded):
+                s = copy.copy(s)
+                s.body = folded
         if isinstance(s, ast.For) and not s.orelse and isinstance(s.iter, ast.Call) and self._target(s.iter, cls) is not None and self._target(s.iter, cls)[1].is_gen and not own_loop_jumps(s.body):
             def on_yield(e, at, s=s):
                 a = ast.Assign(targets=[copy.deepcopy(s.target)], value=e, type_comment=None)
